@@ -3,7 +3,10 @@
 
 package websocket
 
-import "io"
+import (
+	"io"
+	"sync"
+)
 
 // read-only accessors and exported wrappers of unexported pure functions (C12/C13/C15 harness `hws`)
 
@@ -79,4 +82,41 @@ func (c *Conn) VerifSendQueueLen() int {
 	c.mux.Lock()
 	defer c.mux.Unlock()
 	return len(c.sendQueue)
+}
+
+// VerifPoolDups observes the codec pools (flateReaderPool, flateWriterPools) without changing them: it takes out what the
+// calling goroutine can reach (at most max objects per pool), counts the objects that came out more than once — the same
+// reader or writer was put back twice, two connections can then be handed the same one — and puts everything back as
+// it was found.  Single-goroutine harness use only.
+func VerifPoolDups(max int) (readers, writers int) {
+	count := func(p *sync.Pool) int {
+		nw := p.New
+		p.New = nil
+		var got []interface{}
+		for i := 0; i < max; i++ {
+			x := p.Get()
+			if x == nil {
+				break
+			}
+			got = append(got, x)
+		}
+		p.New = nw
+		seen := map[interface{}]bool{}
+		d := 0
+		for _, x := range got {
+			if seen[x] {
+				d++
+			}
+			seen[x] = true
+		}
+		for i := len(got) - 1; i >= 0; i-- {
+			p.Put(got[i])
+		}
+		return d
+	}
+	readers = count(&flateReaderPool)
+	for i := range flateWriterPools {
+		writers += count(&flateWriterPools[i])
+	}
+	return
 }
